@@ -85,3 +85,14 @@ pub fn eq_only_bad<T: PartialEq + Clone>(a: &T, different: Option<T>) -> bool {
     let c = a.clone();
     *a != c || different.map(|d| *a == d || d == *a).unwrap_or(false)
 }
+
+/// the enum wrappers around a header (`LinkHeader`, `LinkExtHeader`, `NetHeaders`, `IpHeaders`,
+/// `TransportHeader`): the length they announce and the bytes they write have to be the wrapped header's
+pub fn wrap_bad(expected: &[u8], lens: &[usize], writes: &[Option<Vec<u8>>]) -> bool {
+    lens.iter().any(|l| *l != expected.len()) || writes.iter().any(|w| w.as_deref() != Some(expected))
+}
+
+pub fn wvec<E>(f: impl FnOnce(&mut Vec<u8>) -> Result<(), E>) -> Option<Vec<u8>> {
+    let mut v = Vec::new();
+    f(&mut v).ok().map(|_| v)
+}
